@@ -331,9 +331,22 @@ def main(argv):
         return 2
 
 
+def sweep_scratch():
+    """Remove scratch directories of worker processes that no longer exist (killed / crashed workers)."""
+    for base in ("/dev/shm", "/tmp"):
+        for d in glob.glob(os.path.join(base, "verifmc-*")):
+            try:
+                pid = int(d.rsplit("-", 1)[1])
+            except ValueError:
+                continue
+            if not os.path.exists("/proc/%d" % pid):
+                shutil.rmtree(d, ignore_errors=True)
+
+
 def run(args, seed):
     prop, tier = args.prop, args.tier
     t0 = time.time()
+    sweep_scratch()
     import props
     pcfg = props.PROPS.get(prop, {})
     configs = pcfg.get("configs", ("cgo",))
